@@ -13,7 +13,9 @@ pub trait Prop: Sync {
 }
 
 pub mod c09;
+pub mod c0405;
 pub mod c19;
+pub mod rlnsub;
 pub mod c20;
 pub mod tree;
 
@@ -21,6 +23,8 @@ pub fn lookup(id: &str) -> Option<Box<dyn Prop>> {
     match id {
         "C09" => Some(Box::new(c09::C09)),
         "C19" => Some(Box::new(c19::C19)),
+        "C04" => Some(Box::new(c0405::C04)),
+        "C05" => Some(Box::new(c0405::C05)),
         "C20" => Some(Box::new(c20::C20)),
         "C06" => Some(Box::new(tree::TreeProp(tree::Focus::C06))),
         "C07" => Some(Box::new(tree::TreeProp(tree::Focus::C07))),
